@@ -519,6 +519,7 @@ def oracle(prog, lines, meta):
                     if s2 != s and (cur[s2].camidx == camidx or cur[s2].stoidx == stoidx):
                         del cur[s2]
                 cur[s] = Acq(s, dict(cfg[s]), cams.get(camidx, dict(w=4, h=3, t=0)))
+                cur[s].reconf = bool(tainted)      # started after a configure-while-running: the run is polluted (see add8)
                 cur[s].camidx = camidx
                 cur[s].stoidx = stoidx
                 cur[s].mon_reg_at_start = mon_registered[s]
@@ -759,17 +760,21 @@ def shape_code(w, h, t, sz):
 
 
 def in_model_scope(prog):
-    """Grammar G1 of the Coq model: averaging off; every stream uses its own device pair (stream i -> cam/sto i);
-    configure / start only between acquisitions (what the scenario generator produces)."""
+    """Grammar G1 of the Coq model: averaging off; the two streams never use the same device at the same time (any stream may
+    use either device pair, or an unopenable device); configure / start only between acquisitions (checked on the log by to_events)."""
+    cur = {0: (None, None), 1: (None, None)}
     for l in prog:
         w = l.split()
         if w and w[0] == "cfg":
             kv = dict(x.split("=") for x in w[2:])
             if int(kv.get("avg", "0")) > 1:
                 return False, "averaging on (filter data path not in the model yet)"
-            s = int(w[1])
-            if kv.get("cam") not in ("AB"[s], "none") or kv.get("sto") not in ("AB"[s], "none"):
-                return False, "device choice outside G1"
+            cur[int(w[1])] = (kv.get("cam"), kv.get("sto"))
+        if w and w[0] == "configure":
+            for k in (0, 1):
+                a, b = cur[0][k], cur[1][k]
+                if a == b and a in ("A", "B"):
+                    return False, "two streams configured with the same device"
         if w and w[0] == "unmap" and len(w) > 2 and w[2] == "bytes":
             return False, "monitor consumes a byte count that is not a frame boundary"
     return True, ""
@@ -795,15 +800,36 @@ def to_events(prog, lines):
     prog_pos = 0
     tags = {0: 0, 1: 0}  # camera index -> number of successful starts so far
     since_mon_rmap = {0: False, 1: False}
+    owner = {}           # (kind, instance serial) -> stream that opened it
+    IDX = {"A": 0, "B": 1, "Bad": 2}
+
+    def camidx(s):
+        return IDX.get(cfg.get(s, {}).get("cam"), s)
+
+    def stream_for(kind, idx, inst, opening):
+        """the stream a device event belongs to: the one that opened this instance; at open, the stream whose new configuration asks for it"""
+        if (kind, inst) in owner:
+            return owner[(kind, inst)]
+        cand = [s for s in (0, 1) if IDX.get(cfg.get(s, {}).get(kind)) == idx]
+        s = cand[0] if cand else idx
+        if opening:
+            owner[(kind, inst)] = s
+        return s
+
+    def gtag(ci, t):
+        """model tag of run t of camera ci: unique across the two cameras (a stream may switch cameras between acquisitions)"""
+        return 2 * t + ci if t > 0 else 0
 
     def frames(text, s):
         out = []
         for f in parse_frames(text):
-            cam = cams[s]
             tag = 0
-            for t in range(tags[s], 0, -1):
-                if px_hash_c(s, t, f["hw"], f["w"], f["h"], f["t"]) == f["px"]:
-                    tag = t
+            for ci in sorted((0, 1), key=lambda c: c != camidx(s)):      # the stream's current camera first, then the other one
+                for t in range(tags.get(ci, 0), 0, -1):
+                    if px_hash_c(ci, t, f["hw"], f["w"], f["h"], f["t"]) == f["px"]:
+                        tag = gtag(ci, t)
+                        break
+                if tag:
                     break
             out.append("%d:%d:%d:%d" % (tag, f["id"], f["hw"], shape_code(f["w"], f["h"], f["t"], f["sz"])))
         return out
@@ -827,6 +853,14 @@ def to_events(prog, lines):
             if w[1] in ("configure", "start") and w[2] == "call" and alive and ev.scope is None:
                 ev.scope = "acquire_%s called while a worker thread is alive" % w[1]
             if w[1] == "configure" and w[2] == "call":
+                # the configuration this call applies: the cfg lines since the previous configure
+                while prog_pos < len(prog) and not prog[prog_pos].startswith("configure"):
+                    pl = prog[prog_pos]
+                    if pl.startswith("cfg "):
+                        s = int(pl.split()[1])
+                        kvs = dict(x.split("=") for x in pl.split()[2:])
+                        cfg[s] = dict(cam=kvs.get("cam"), sto=kvs.get("sto"), n=int(kvs.get("n", 0)))
+                    prog_pos += 1
                 continue
             if w[1] == "configure":
                 while prog_pos < len(prog) and not prog[prog_pos].startswith("configure"):
@@ -876,9 +910,9 @@ def to_events(prog, lines):
             if w[1] == "driver" or w[1].startswith("dev"):
                 continue
             kind, idx, inst = w[1][:3], int(w[1][3]), int(w[1].split("#")[1])
-            s = idx
-            a = actor(tid, s)
             op = w[2]
+            s = stream_for(kind, idx, inst, op == "open")
+            a = actor(tid, s)
             if op in ("open", "close", "set"):
                 emit("S %d %s %s%s %d" % (s, a, op, kind, inst), i)
             elif op == "reserve":
@@ -887,8 +921,8 @@ def to_events(prog, lines):
                 ok = "ok" in w[3:4]
                 if kind == "cam":
                     if ok:
-                        tags[s] += 1
-                    emit("S %d %s camstart %d %s %d" % (s, a, inst, "ok" if ok else "fail", tags[s] if ok else 0), i)
+                        tags[idx] = tags.get(idx, 0) + 1
+                    emit("S %d %s camstart %d %s %d" % (s, a, inst, "ok" if ok else "fail", gtag(idx, tags.get(idx, 0)) if ok else 0), i)
                 else:
                     emit("S %d %s stostart %d %s" % (s, a, inst, "ok" if ok else "fail"), i)
             elif op == "stop":
@@ -898,8 +932,8 @@ def to_events(prog, lines):
             elif op == "get_frame":
                 if w[3] == "ok":
                     hw = int(w[4].split("=")[1])
-                    tag = int(w[5].split("=")[1])
-                    c = cams[s]
+                    tag = gtag(idx, int(w[5].split("=")[1]))
+                    c = cams[idx]
                     emit("S %d %s getframe %d ok %d %d %d" % (s, a, inst, hw, tag, shape_code(c["w"], c["h"], c["t"], frame_size(c["w"], c["h"], c["t"]))), i)
                 else:
                     emit("S %d %s getframe %d fail" % (s, a, inst), i)
@@ -917,9 +951,9 @@ def to_events(prog, lines):
                     if w[3] != "sink.in":
                         continue
                     f = dict(x.split("=") for x in w[5:])
-                    c = cams[s]
+                    c = cams[camidx(s)]
                     # the committed frame's identity: tag of the camera's current run
-                    emit("S %d %s commit %s %d:%s:%s:%d" % (s, a, "ok" if w[4] == "ok" else "drop", tags[s], f["id"], f["hw"],
+                    emit("S %d %s commit %s %d:%s:%s:%d" % (s, a, "ok" if w[4] == "ok" else "drop", gtag(camidx(s), tags.get(camidx(s), 0)), f["id"], f["hw"],
                                                            shape_code(c["w"], c["h"], int(f["t"]), int(f["sz"]))), i)
                 elif w[2] == "abort_write":
                     pass
